@@ -4,11 +4,5 @@ package origins
 
 // Add-only verification hook (build tag verif, injected with -overlay; never committed to the repository).
 
-// VerifIDNA reports whether the package's IDNA profile accepts host.
-func VerifIDNA(host string) bool {
-	_, err := profile.ToASCII(host)
-	return err == nil
-}
-
 // VerifSplitAtCommonSuffix exposes splitAtCommonSuffix.
 func VerifSplitAtCommonSuffix(a, b string) (string, string, string) { return splitAtCommonSuffix(a, b) }
